@@ -6,10 +6,15 @@
   All theorems hold for case lists of ANY length, for every oracle `env` (the Function under test
   with its per-case mock API, and the CEL evaluation of `overlayResource`).
 
+  The per-case mock API (`MockApi`, `_merge_overlay`) is modelled in `Koreo/MockApi.lean` as a state
+  machine over GET / write / DELETE calls; the section "the per-case mock API" below proves, for every
+  conversation a Function can have with it, what the runner reads back and hands to the next case.
+
   Not expressible in this functional model (checked by deep snapshots in harness/c18.py only):
   "no case can modify the Function under test or the base fixtures" — object identity / aliasing.
 -/
 import Koreo.Lemmas.FunctionTest
+import Koreo.Lemmas.MockApi
 
 namespace Koreo.C18
 open Koreo JVal Koreo.FT
@@ -174,6 +179,128 @@ theorem variant_result_depends_on_core_prefix (env : Env Ov) (st : State)
 
 /-! ## the hypotheses are satisfiable by a non-trivial run -/
 
+
+/-! ## the per-case mock API (`Koreo/MockApi.lean`): what a case's conversation leaves for the next case -/
+
+section MockApi
+open Koreo.FT.Mock
+
+/-- the mock belongs to one case: whatever the Function has done so far, a GET answers the case's own
+    resource (never something an earlier request of the same case materialised) -/
+theorem mock_get_answers_the_case_resource (cur : Option JVal) (cs : List Call) :
+    answer (run (fresh cur) cs) .get = answer (fresh cur) .get := by
+  simp [answer, run_current]
+
+/-- `_api_called` is set exactly by mutating requests: reads alone leave no trace -/
+theorem mock_apiCalled_iff_mutation (cur : Option JVal) (cs : List Call) :
+    (run (fresh cur) cs).apiCalled = cs.any Call.isMutation := by
+  simp [run_apiCalled, fresh]
+
+/-- `_delete_called` is set exactly by a DELETE -/
+theorem mock_deleteCalled_iff_delete (cur : Option JVal) (cs : List Call) :
+    (run (fresh cur) cs).deleteCalled = cs.any Call.isDelete := by
+  simp [run_deleteCalled, fresh]
+
+/-- `materialized` is what the LAST mutating request materialised over the case's own resource
+    (`{}` for a DELETE), and nothing when there was none -/
+theorem mock_materialized_is_last_mutation (cur : Option JVal) (cs : List Call) :
+    (run (fresh cur) cs).materialized = (effectOf cur cs).materialized := by
+  rw [run_materialized]
+  unfold effectOf
+  cases hl : lastMutation cs with
+  | none => simp [matOf, fresh, Effect.materialized]
+  | some d =>
+    have hd := lastMutation_isMutation cs d hl
+    cases d with
+    | get => simp [Call.isMutation] at hd
+    | delete => simp [matOf, Effect.materialized]
+    | write b => simp [matOf, fresh, Effect.materialized]
+
+/-- the `Effect` of the C18/C19 model agrees with the mock on `_api_called` for every conversation -/
+theorem effect_apiCalled_agrees (cur : Option JVal) (cs : List Call) :
+    (effectOf cur cs).apiCalled = (run (fresh cur) cs).apiCalled := by
+  rw [mock_apiCalled_iff_mutation]
+  unfold effectOf
+  cases hl : lastMutation cs with
+  | none =>
+    have := (lastMutation_none_iff cs).mp hl
+    simp [Effect.apiCalled, this]
+  | some d =>
+    have hd := lastMutation_isMutation cs d hl
+    have hne : cs.any Call.isMutation = true := by
+      cases h : cs.any Call.isMutation with
+      | true => rfl
+      | false => have := (lastMutation_none_iff cs).mpr h; rw [hl] at this; cases this
+    cases d with
+    | get => simp [Call.isMutation] at hd
+    | delete => simp [Effect.apiCalled, hne]
+    | write b => simp [Effect.apiCalled, hne]
+
+/-- ... and on `_delete_called` whenever the Function made at most one mutating request in the
+    reconcile (what C07 bounds: `rejected_mutation_is_the_only_attempt`, `delete_only_by_mode_or_recreate`);
+    so the three-valued `Effect` loses nothing the runner reads -/
+theorem effect_exact_of_single_mutation (cur : Option JVal) (cs : List Call)
+    (h : (cs.filter Call.isMutation).length ≤ 1) :
+    (effectOf cur cs).deleteCalled = (run (fresh cur) cs).deleteCalled := by
+  rw [mock_deleteCalled_iff_delete, any_isDelete_of_single cs h]
+  unfold effectOf
+  cases hl : lastMutation cs with
+  | none => simp [Effect.deleteCalled]
+  | some d => cases d <;> simp [Effect.deleteCalled]
+
+/-- what the runner hands to the next case is `finishCase`'s expression over that `Effect` -/
+theorem handedOn_is_finishCase_rule (cur : Option JVal) (cs : List Call) (resource : Option JVal) :
+    handedOn (run (fresh cur) cs) resource =
+      (if (effectOf cur cs).apiCalled then (effectOf cur cs).materialized else resource) := by
+  unfold handedOn
+  rw [effect_apiCalled_agrees, mock_materialized_is_last_mutation]
+
+/-- a case whose Function only read (or made no request) hands on the resource it started from -/
+theorem readonly_case_hands_on_its_resource (cur : Option JVal) (cs : List Call) (resource : Option JVal)
+    (h : cs.any Call.isMutation = false) : handedOn (run (fresh cur) cs) resource = resource := by
+  unfold handedOn
+  rw [mock_apiCalled_iff_mutation, h]
+  simp
+
+/-- a write when the case has no resource materialises exactly the body (a create) -/
+theorem write_without_resource_is_the_body (cur : Option JVal) (body : JVal) (h : truthyO cur = false) :
+    merged cur body = body := by
+  simp [merged, h]
+
+/-- a write over an existing resource replaces the top-level keys the body names (Python dict: unique
+    keys) and keeps every other top-level key of the case's resource -/
+theorem write_replaces_named_top_level_keys (b o : List (String × JVal)) (hb : b ≠ []) (hnd : (keys o).Nodup)
+    (k : String) :
+    ∃ m, merged (some (.obj b)) (.obj o) = .obj m ∧
+      lookup k m = (match lookup k o with | some v => some v | none => lookup k b) := by
+  have ht : truthyO (some (JVal.obj b)) = true := by
+    cases b with
+    | nil => exact absurd rfl hb
+    | cons x xs => simp [truthyO, truthy]
+  refine ⟨mergeTop b o, by simp [merged, ht], ?_⟩
+  cases hl : lookup k o with
+  | none => simpa using lookup_mergeTop_notin k o b hl
+  | some v => simpa using lookup_mergeTop_in k v o b hnd hl
+
+/-- after a non-variant case that deleted, the threaded resource is `{}`: a following case that uses
+    `overlayResource` without giving a `currentResource` is the setup error (the runner has nothing to
+    overlay), not an overlay of the deleted object -/
+theorem overlay_after_delete_is_setup_error (env : Env Ov) (st : State) (c : Case Ov) (ov : Ov)
+    (cur : Option JVal) (cs : List Call) (hdel : lastMutation cs = some .delete)
+    (hst : st.resource = handedOn (run (fresh cur) cs) cur)
+    (hs : c.skip = false) (ho : c.overlay = some ov) :
+    runCase env st c = (st, .setupError, true) := by
+  have hm : cs.any Call.isMutation = true := by
+    cases h : cs.any Call.isMutation with
+    | true => rfl
+    | false => have := (lastMutation_none_iff cs).mpr h; rw [hdel] at this; cases this
+  have hres : st.resource = some (.obj []) := by
+    rw [hst, handedOn_is_finishCase_rule]
+    simp [effectOf, hdel, Effect.apiCalled, Effect.materialized]
+  simp [runCase, hs, ho, hres, truthyO, truthy]
+
+end MockApi
+
 /-- an echoing Function: returns what it received, never calls the API -/
 def echoEnv : Env JVal where
   evalOverlay := fun ov _ base => some (deepOverlay base ov)
@@ -201,5 +328,22 @@ example : (runCases echoEnv exState exCases).1.map (fun r => match r with
 example : coreResults exCases (runCases echoEnv exState exCases).1 =
     (runCases echoEnv exState (core exCases)).1 :=
   results_are_those_of_the_core echoEnv exState exCases (by simp [NoAuxFatal, exCases, isCore]; decide)
+
+
+/-- a conversation GET, PATCH, GET over `{a: 1, b: {c: 2}}` with body `{b: {d: 3}}`: the second GET still
+    answers the case's resource, the materialised object has `b` REPLACED (top-level), one mutation,
+    so the `Effect` is exact -/
+example :
+    let cur : Option JVal := some (.obj [("a", .int 1), ("b", .obj [("c", .int 2)])])
+    let cs : List Koreo.FT.Mock.Call := [.get, .write (.obj [("b", .obj [("d", .int 3)])]), .get]
+    (Koreo.FT.Mock.answers (Koreo.FT.Mock.fresh cur) cs).map (·.isSome) = [true, true, true] ∧
+    (Koreo.FT.Mock.run (Koreo.FT.Mock.fresh cur) cs).apiCalled = true ∧
+    (Koreo.FT.Mock.run (Koreo.FT.Mock.fresh cur) cs).deleteCalled = false ∧
+    ((cs.filter Koreo.FT.Mock.Call.isMutation).length ≤ 1) ∧
+    (match (Koreo.FT.Mock.run (Koreo.FT.Mock.fresh cur) cs).materialized with
+      | some (.obj m) => (match lookup "b" m with | some (.obj [("d", .int 3)]) => true | _ => false) &&
+                         (match lookup "a" m with | some (.int 1) => true | _ => false)
+      | _ => false) = true := by
+  decide
 
 end Koreo.C18
